@@ -91,6 +91,22 @@ def ValOK (v : Str) : Prop :=
 def DictOK (kvs : List (Str × Str)) : Prop :=
   (∀ kv ∈ kvs, KeyOK kv.1 ∧ ValOK kv.2) ∧ (kvs.map Prod.fst).Nodup
 
+/-! ### the file in between: Python's text mode
+
+The configuration is written with `open(path, "w")` and read back with `open(path).read()`: on reading, text mode translates every
+`\r\n` and every lone `\r` to `\n` (universal newlines).  A carriage return is therefore a line break of this file format exactly like
+`\n`, and — like `\n` — cannot be part of a key or a value. -/
+
+/-- `open(path).read()` after `open(path, "w").write(data)` on a platform whose line separator is `\n` -/
+def readText : Str → Str
+  | [] => []
+  | 13 :: 10 :: cs => 10 :: readText cs
+  | 13 :: cs => 10 :: readText cs
+  | c :: cs => c :: readText cs
+
+/-- no carriage return anywhere in the dictionary -/
+def NoCR (kvs : List (Str × Str)) : Prop := ∀ kv ∈ kvs, (∀ c ∈ kv.1, c ≠ 13) ∧ (∀ c ∈ kv.2, c ≠ 13)
+
 /-! ### transform pipeline -/
 
 inductive Val
